@@ -790,3 +790,83 @@ def valid(formula):
     if r == z3.unknown:
         raise core.Unsupported("solver unknown in a concrete replay")
     return r == z3.unsat
+
+
+class MArr(SArr):
+    """Mutable symbolic array (a store target, or the copy a block kernel assigns into):
+    ``a[index] = value`` with basic indices (ints, slices of any step) is a functional update of the
+    element function with NumPy's semantics -- the value is broadcast to the selected shape; the
+    obligations 'value broadcasts to the selection' go to the log."""
+
+    def __setitem__(self, index, value):
+        if isinstance(index, SArr):
+            return SArr.__setitem__(self, index, value)
+        if not isinstance(index, tuple):
+            index = (index,)
+        index = list(index)
+        if any(i is Ellipsis for i in index):
+            k = next(j for j, i in enumerate(index) if i is Ellipsis)
+            index[k:k + 1] = [slice(None)] * (self.ndim - (len(index) - 1))
+        index = index + [slice(None)] * (self.ndim - len(index))
+        sel = []   # per target axis: ("int", pos) | ("slice", a, b, s, sel_axis)
+        lens = []
+        for ind, n in zip(index, self.shape):
+            if _is_slice(ind):
+                st = ind.step
+                if isinstance(st, SymInt):
+                    st = int(st)
+                a, b, s_ = slice_indices(ind.start, ind.stop, st, n)
+                sel.append(("slice", a, b, s_, len(lens)))
+                lens.append(range_len(a, b, s_))
+            elif isinstance(ind, (numbers.Integral, SymInt)):
+                if self.log is not None:
+                    self.log.add("assignment integer index in range", core._wrapb(z3.And(_z(ind) >= -_z(n), _z(ind) < _z(n))))
+                sel.append(("int", core._ite(ind < 0, ind + n, ind)))
+            else:
+                raise core.Unsupported(f"assignment index element {ind!r}")
+        if not isinstance(value, SArr):
+            c = core.SymReal._r(value)
+            value = SArr((), lambda idx, c=c: c)
+        if value.ndim > len(lens):
+            # leading axes of the value must have length 1
+            extra = value.ndim - len(lens)
+            if self.log is not None:
+                self.log.add("value has no more dimensions than the selection", core._wrapb(z3.And(*[_z(d) == 1 for d in value.shape[:extra]])))
+            value = value[(0,) * extra]
+        off = len(lens) - value.ndim
+        if self.log is not None:
+            conds = [z3.Or(_z(d) == _z(lens[off + j]), _z(d) == 1) for j, d in enumerate(value.shape)]
+            self.log.add("value broadcasts to the selected shape", core._wrapb(z3.And(*conds)) if conds else True)
+        vb = value.broadcast_to(lens)
+        old = self._at
+
+        def at(pos, sel=tuple(sel), vb=vb, old=old):
+            conds, idx = [], [None] * len(vb.shape)
+            for p, e in zip(pos, sel):
+                if e[0] == "int":
+                    conds.append(p == _z(e[1]))
+                    continue
+                _k, a, b, s_, j = e
+                a, b = _z(a), _z(b)
+                if s_ > 0:
+                    conds += [p >= a, p < b, (p - a) % s_ == 0]
+                    idx[j] = (p - a) / s_
+                else:
+                    conds += [p <= a, p > b, (a - p) % (-s_) == 0]
+                    idx[j] = (a - p) / (-s_)
+            return z3.If(z3.And(*conds) if conds else z3.BoolVal(True), vb._at(tuple(idx)), old(pos))
+
+        self._at = at
+        self.struct = None
+        self.writes = getattr(self, "writes", 0) + 1
+
+    def __getitem__(self, index):
+        # a read sees the content at the time of the read
+        return SArr(self.shape, self._at, self.dtype, self.log)[index]
+
+    def copy(self):
+        return MArr(self.shape, self._at, self.dtype, self.log)
+
+
+def mutable_copy(a):
+    return MArr(a.shape, a._at, a.dtype, a.log)
